@@ -45,6 +45,24 @@ Theorem C11_secrets_not_world_readable :
               dget (disk_of s') p = Some (FD (f_bytes f) secret_mode) /\ not_world_accessible secret_mode.
 Proof. exact secrets_closed. Qed.
 
+(* At every reachable state — so, by the crash remark of Model.v, after every single file operation,
+   under any faults, for the code as found and as repaired — a file is empty, or untouched since
+   before the process started, or holds a prefix of a generated File of that path together with that
+   File's mode: partially or fully written key bytes are never in a world-readable file. *)
+Theorem C11_written_bytes_carry_their_mode :
+  forall fixed w d0 h p x,
+    dget (disk_of (run fixed w (boot d0) h)) p = Some x ->
+    bytes x = EmptyString \/ dget d0 p = Some x \/
+    exists f, In f (files_of h) /\ f_path f = p /\ prefix (bytes x) (f_bytes f) = true /\ mode x = mode_of f.
+Proof. exact provenance. Qed.
+
+Theorem C11_key_bytes_never_world_readable :
+  forall fixed w d0 h p x,
+    dget (disk_of (run fixed w (boot d0) h)) p = Some x ->
+    (forall f, In f (files_of h) -> f_path f = p -> f_secret f = true) ->
+    bytes x = EmptyString \/ dget d0 p = Some x \/ (mode x = secret_mode /\ not_world_accessible (mode x)).
+Proof. exact key_bytes_closed. Qed.
+
 (* A restarted control plane: from ANY disk (so after a crash at any point of any operation sequence),
    a successful start-up cleanup leaves only bootstrap files in the managed folders, leaves those and
    everything outside the managed folders untouched, and starts with nothing remembered. *)
